@@ -1,7 +1,9 @@
 package sim
 
 import (
+	"bytes"
 	"fmt"
+	"runtime/pprof"
 	"strings"
 	"sync"
 	"time"
@@ -20,19 +22,40 @@ func scenStream(s *spec.RunSpec, res *spec.RunResult, finish func(*World)) {
 		res.Harness = append(res.Harness, "world: "+err.Error())
 		finish(nil)
 	}
-	capD := time.Duration(s.VirtualCapS) * time.Second
+	w.startCap(finish)
+	go w.serverAcceptLoop()
+	w.scheduleTimedStreamFaults()
+	w.runWorkload()
+	w.finalChecks(false)
+	w.stopAll()
+	res.Completed = true
+	finish(w)
+}
+
+// startCap arms the virtual-time cap of the run.
+func (w *World) startCap(finish func(*World)) {
+	capD := time.Duration(w.Spec.VirtualCapS) * time.Second
 	if capD <= 0 {
 		capD = 10 * time.Minute
 	}
 	go func() {
 		time.Sleep(capD)
-		res.CapHit = true
+		w.Res.CapHit = true
+		w.dumpStacks()
 		w.finalChecks(true)
 		finish(w)
 	}()
-	go w.serverAcceptLoop()
-	w.scheduleTimedStreamFaults()
+}
 
+func (w *World) stopAll() {
+	for _, c := range w.clients {
+		c.cli.Stop()
+	}
+	w.srv.Stop()
+}
+
+// runWorkload runs every scripted session to its end.
+func (w *World) runWorkload() {
 	var clientWG sync.WaitGroup
 	var all []*sessRT
 	for _, c := range w.clients {
@@ -72,13 +95,6 @@ func scenStream(s *spec.RunSpec, res *spec.RunResult, finish func(*World)) {
 		}
 		time.Sleep(500 * time.Millisecond)
 	}
-	w.finalChecks(false)
-	for _, c := range w.clients {
-		c.cli.Stop()
-	}
-	w.srv.Stop()
-	res.Completed = true
-	finish(w)
 }
 
 func (w *World) destroyingFaults() bool {
@@ -132,6 +148,10 @@ func (w *World) finalChecks(capHit bool) {
 			if !completeExpected {
 				continue
 			}
+			if rt.dialErr != "" && w.singleAcceptLoopBlocked() {
+				w.violate(prop, "new-session-starved:single-accept-loop-held-by-hostile-session", "%s: DialContext failed (%s) while the server application's only Accept() call was held (10 s SOCKS read) by a session that an authenticated hostile user opened without sending a request", rt.key, rt.dialErr)
+				break
+			}
 			if rt.dialErr != "" {
 				w.violate(prop, "dial-failed", "%s: DialContext failed although no destroying fault was injected: %s", rt.key, rt.dialErr)
 				break
@@ -148,6 +168,9 @@ func (w *World) finalChecks(capHit bool) {
 				if capHit {
 					cls = "stalled"
 				}
+				if w.singleAcceptLoopBlocked() && rt.sconn == nil {
+					cls = "new-session-starved:single-accept-loop-held-by-hostile-session"
+				}
 				w.violate(prop, cls, "%s dir %d: %d of %d bytes delivered (written ok %d); reader end: %q", rt.key, d, read, exp, wok, why)
 			} else if s.Liveness != nil && exp > 0 {
 				from := lastWrite
@@ -158,7 +181,9 @@ func (w *World) finalChecks(capHit bool) {
 					w.violate(prop, "progress-too-slow", "%s dir %d: last byte read at %v, %v after faults stopped / the last write returned (bound %v)", rt.key, d, completeAt, completeAt-from, bound)
 				}
 			}
-			if read == exp && werr != "" {
+			if read == exp && werr != "" && w.singleAcceptLoopBlocked() && strings.Contains(werr, "socks5") {
+				w.violate(prop, "new-session-starved:single-accept-loop-held-by-hostile-session", "%s dir %d: %s", rt.key, d, werr)
+			} else if read == exp && werr != "" {
 				w.violate(prop, "write-error", "%s dir %d: Write failed with %q although every byte was delivered", rt.key, d, werr)
 			}
 		}
@@ -214,4 +239,33 @@ func (w *World) describeSessions() string {
 		fmt.Fprintf(&sb, "[c%ds%d c2s %d/%d s2c %d/%d ce=%q se=%q dial=%q] ", o.Client, o.Session, o.C2SRead, o.C2SWritten, o.S2CRead, o.S2CWritten, o.ClientEnd, o.ServerEnd, o.DialErr)
 	}
 	return sb.String()
+}
+
+// dumpStacks keeps the goroutine dump (aggregated form) when the cap fires.
+func (w *World) dumpStacks() {
+	var buf bytes.Buffer
+	pprof.Lookup("goroutine").WriteTo(&buf, 1)
+	w.mu.Lock()
+	if w.Res.Info == nil {
+		w.Res.Info = map[string]string{}
+	}
+	st := buf.String()
+	if len(st) > 30000 {
+		st = st[:30000]
+	}
+	w.Res.Info["stacks"] = st
+	w.mu.Unlock()
+}
+
+// singleAcceptLoopBlocked: the server application calls Server.Accept from one
+// goroutine, an authenticated hostile user has opened at least one session, and
+// Accept has failed at least once (its 10 s SOCKS-request read timed out).
+func (w *World) singleAcceptLoopBlocked() bool {
+	if w.Spec.Server.Acceptors > 1 || w.Spec.Attack == nil {
+		return false
+	}
+	w.mu.Lock()
+	errs := w.acceptErrs
+	w.mu.Unlock()
+	return errs > 0 && w.Tap.hostileSessionsOpened() > 0
 }
